@@ -21,7 +21,11 @@ var containerChild = map[cm.BlockKind]bool{
 
 func isPhrasing(k cm.InlineKind) bool {
 	switch k {
-	case cm.TextKind, cm.SoftLineBreakKind, cm.HardLineBreakKind, cm.IndentKind, cm.CharacterReferenceKind,
+	// (An Indent node stands for white space that is content: it occurs in code
+	// blocks, code spans, raw HTML and link attributes, never directly in a
+	// paragraph, heading, emphasis or link text, whose lines lose their
+	// leading white space.)
+	case cm.TextKind, cm.SoftLineBreakKind, cm.HardLineBreakKind, cm.CharacterReferenceKind,
 		cm.EmphasisKind, cm.StrongKind, cm.LinkKind, cm.ImageKind, cm.CodeSpanKind, cm.AutolinkKind, cm.HTMLTagKind:
 		return true
 	}
